@@ -4,6 +4,7 @@
 #include <asl/Thread.h>
 #include <asl/Mutex.h>
 #include <asl/Queue.h>
+#include <signal.h>
 #include "vsched.h"
 #include "vrec.h"
 
@@ -132,12 +133,18 @@ static void* noiseMain(void*)
 static long startJoinRounds(Rng& rng, int rounds, long* failures)
 {
 	g_noiseStop = false;
-	int nn = rng.range(8, 24);
+	int nn = rng.range(2, 8);
+	struct timespec t0, t1;
+	clock_gettime(CLOCK_MONOTONIC, &t0);
 	pthread_t noise[24];
 	for (int i = 0; i < nn; i++) pthread_create(&noise[i], 0, noiseMain, 0);
 	long bad = 0;
-	for (int r = 0; r < rounds; r++)
+	int done = 0;
+	for (int r = 0; r < rounds; r++, done++)
 	{
+		// bounded by time as well as by count: on a loaded machine a round can take milliseconds
+		clock_gettime(CLOCK_MONOTONIC, &t1);
+		if (t1.tv_sec - t0.tv_sec >= 3) break;
 		int k = rng.below(3);
 		volatile int n = 0;
 		if (k == 0)
@@ -171,11 +178,20 @@ static long startJoinRounds(Rng& rng, int rounds, long* failures)
 	g_noiseStop = true;
 	for (int i = 0; i < nn; i++) pthread_join(noise[i], 0);
 	*failures = bad;
-	return rounds;
+	return done;
+}
+
+// every scenario normally takes milliseconds; one that has not ended after 90 s is a lost post / signal / join
+static void onWatchdog(int)
+{
+	const char m[] = "VREC-FAIL: a scenario did not terminate within 90 s (lost post, signal or join)\n";
+	if (write(2, m, sizeof m - 1)) {}
+	_exit(3);
 }
 
 int main(int argc, char** argv)
 {
+	signal(SIGALRM, onWatchdog);
 	Args args(argc, argv);
 	Rng rng(args.seed);
 	vsched::install();
@@ -185,6 +201,7 @@ int main(int argc, char** argv)
 	int round = 0;
 	while (events < args.events)
 	{
+		alarm(90);
 		if (round++ % 3 == 0)
 		{
 			long failures = 0;
